@@ -11,6 +11,42 @@ def replay_bin():
     return os.path.join(VERIF, ".cache", "target", "release", "replay")
 
 
+def stamp_sources(repo):
+    """cargo decides by modification time; the binary must follow the CONTENT of the tree it is pointed at (another tree, or
+    files put back with their old time stamps): when the content hash of the sources differs from the one of the last build,
+    the crate root is touched so that cargo compiles it again."""
+    import hashlib
+    h = hashlib.sha256()
+    src = os.path.join(repo, "src")
+    for root, dirs, files in sorted(os.walk(src)):
+        dirs.sort()
+        for fn in sorted(files):
+            fp = os.path.join(root, fn)
+            h.update(os.path.relpath(fp, src).encode() + b"\0")
+            try:
+                h.update(open(fp, "rb").read())
+            except OSError:
+                pass
+    for extra in ("tracer_logger.js", "Cargo.lock"):
+        try:
+            h.update(open(os.path.join(repo, extra), "rb").read())
+        except OSError:
+            pass
+    digest = h.hexdigest()
+    stamp = os.path.join(VERIF, ".cache", "replay_sources.sha256")
+    try:
+        old = open(stamp).read().strip()
+    except OSError:
+        old = ""
+    if old != digest:
+        try:
+            os.utime(os.path.join(VERIF, "replay", "src", "main.rs"), None)
+            os.makedirs(os.path.dirname(stamp), exist_ok=True)
+            open(stamp, "w").write(digest)
+        except OSError:
+            pass
+
+
 def build_replay(repo):
     env = dict(os.environ)
     env["CARGO_NET_OFFLINE"] = "true"
@@ -29,6 +65,7 @@ def build_replay(repo):
             pass
     env["RUSTFLAGS"] = "--cfg dd_iast_verif"
     env["CARGO_TARGET_DIR"] = os.path.join(VERIF, ".cache", "target")
+    stamp_sources(repo)
     p = subprocess.run(["cargo", "build", "--release", "--offline", "-q"], cwd=os.path.join(VERIF, "replay"),
                        env=env, capture_output=True, text=True)
     return p.returncode == 0, p.stderr[-3000:]
